@@ -1094,6 +1094,34 @@ Proof.
 Qed.
 
 
+Lemma last_of_in key L v : last_of key L = Some v -> In (key, v) L.
+Proof.
+  induction L as [|[k x] r IH]; [discriminate|]. cbn [last_of].
+  destruct (last_of key r) as [y|].
+  - intros H; inversion H; subst. right. auto.
+  - destruct (pkey_eq_dec k key) as [->|]; [|discriminate]. intros H; inversion H; subst. now left.
+Qed.
+
+Lemma kvs_in key v props :
+  In (key, v) (kvs props) -> exists n s k, In (n, s) props /\ prop_of s = Some (k, v) /\ key_of k = key.
+Proof.
+  unfold kvs. intros H. apply in_flat_map in H as [[n s] [Hin H]]. cbn [snd] in H.
+  destruct (prop_of s) as [[k v']|] eqn:P; [|destruct H].
+  destruct H as [H|[]]. inversion H; subst. exists n, s, k. auto.
+Qed.
+
+Lemma in_kvs n s k v props : In (n, s) props -> prop_of s = Some (k, v) -> In (key_of k, v) (kvs props).
+Proof.
+  intros Hin P. unfold kvs. apply in_flat_map. exists (n, s). split; [exact Hin|]. cbn [snd]. rewrite P. now left.
+Qed.
+
+Lemma last_of_some key L v : In (key, v) L -> exists v', last_of key L = Some v'.
+Proof.
+  induction L as [|[k x] r IH]; [intros []|]. intros [H|H]; cbn [last_of].
+  - inversion H; subst. destruct (last_of key r); [eauto|]. destruct (pkey_eq_dec key key); [eauto|congruence].
+  - destruct (IH H) as [v' ->]. eauto.
+Qed.
+
 Section OnePerSection.
   Variable pyparse : string -> bool.
 
@@ -1118,7 +1146,7 @@ Section OnePerSection.
     intros H; inversion H; subst; cbn. repeat split; auto.
     apply orb_true_iff in E1 as [E1|E1].
     - left. now apply negb_true_iff in E1.
-    - right. destruct (p_tags pr) as [[|? ?]|]; try discriminate. congruence.
+    - right. destruct (p_tags pr) as [[|? ?]|]; discriminate.
   Qed.
 
   (* a built rule carries exactly what its section states: for every single-valued property the value of
@@ -1155,12 +1183,136 @@ Section OnePerSection.
     - congruence.
     - rewrite H6, F4. reflexivity.
     - rewrite H7, F5. destruct (last_of KTags (kvs props)); reflexivity.
-    - rewrite H8, F6. destruct (last_of KPriority (kvs props)) as [v|]; [|reflexivity].
-      destruct (parse_int v) eqn:P; [reflexivity|].
-      (* an invalid priority line would have stopped the fold *)
-      exfalso. clear - F9 P F6. revert F6. rewrite P. intros _.
-      admit.
+    - destruct (last_of KPriority (kvs props)) as [v|] eqn:LP.
+      + apply last_of_in, kvs_in in LP. destruct LP as (n & s & k & Hin & P & K).
+        rewrite Forall_forall in F9. specialize (F9 _ Hin). cbn [snd] in F9.
+        unfold prop_check in F9. rewrite P, K in F9. cbn [kv_check] in F9.
+        rewrite H8, F6. destruct (parse_int v); [reflexivity|discriminate F9].
+      + rewrite H8, F6. reflexivity.
     - congruence.
     - congruence.
-  Abort.
+  Qed.
 End OnePerSection.
+
+Section FileLevel.
+  Variable pyparse : string -> bool.
+
+  Lemma parse_m_sections ls f :
+    parse_merchants pyparse ls = Ok f ->
+    Forall2 (fun sec r => build_rule pyparse sec = Ok r) (sections_m ls) (m_rules f).
+  Proof.
+    unfold parse_merchants, parse_m_numbered, sections_m.
+    destruct (group _) as [pre secs]. destruct (fold_left pre_step pre ([], [])) as [vars tr].
+    destruct (mapM (build_rule pyparse) secs) as [rules|] eqn:E; [|discriminate].
+    intros H; inversion H; subst; cbn. now apply mapM_Ok.
+  Qed.
+
+  Lemma parse_m_err_sections ls n k :
+    parse_merchants pyparse ls = Err n k -> exists sec, In sec (sections_m ls) /\ build_rule pyparse sec = Err n k.
+  Proof.
+    unfold parse_merchants, parse_m_numbered, sections_m.
+    destruct (group _) as [pre secs]. destruct (fold_left pre_step pre ([], [])) as [vars tr].
+    destruct (mapM (build_rule pyparse) secs) as [rules|] eqn:E; [discriminate|].
+    intros H; inversion H; subst; cbn. now apply mapM_Err.
+  Qed.
+
+  Lemma parse_m_bad_section ls sec n k :
+    In sec (sections_m ls) -> build_rule pyparse sec = Err n k -> is_ok (parse_merchants pyparse ls) = false.
+  Proof.
+    unfold parse_merchants, parse_m_numbered, sections_m.
+    destruct (group _) as [pre secs]. destruct (fold_left pre_step pre ([], [])) as [vars tr]. cbn [snd].
+    intros Hin Hb. pose proof (mapM_some_Err _ _ _ _ _ Hin Hb) as E.
+    destruct (mapM (build_rule pyparse) secs); [discriminate E|reflexivity].
+  Qed.
+
+  Lemma sections_m_heads ls : map sec_head (sections_m ls) = headers classify_m ls.
+  Proof. unfold sections_m. now rewrite group_headers, headers_toks. Qed.
+
+  (* as many rules as headers, in file order, each named after its header and carrying its line *)
+  Lemma m_one_rule_per_section ls f :
+    parse_merchants pyparse ls = Ok f ->
+    map (fun r => (r_line r, r_name r)) (m_rules f) = headers classify_m ls.
+  Proof.
+    intros H. apply parse_m_sections in H. rewrite <- sections_m_heads.
+    induction H as [|[[n nm] ps] r secs rules Hb _ IH]; [reflexivity|].
+    cbn [map sec_head]. rewrite IH. apply build_rule_spec in Hb. cbn zeta in Hb.
+    destruct Hb as (H1 & H2 & _). now rewrite H1, H2.
+  Qed.
+
+  (* ---- views ---- *)
+  Lemma parse_v_sections ls f :
+    parse_views pyparse ls = Ok f ->
+    Forall2 (fun sec v => build_view pyparse sec = Ok v) (sections_v ls) (f_views f).
+  Proof.
+    unfold parse_views, parse_v_numbered, sections_v.
+    destruct (group _) as [pre secs]. destruct (foldM (vpre_step pyparse) pre []) as [g|]; [|discriminate].
+    cbn [bind snd].
+    destruct (mapM (build_view pyparse) secs) as [vs|] eqn:E; [|discriminate].
+    intros H; inversion H; subst; cbn. now apply mapM_Ok.
+  Qed.
+
+  Definition vitems (lines : list (nat * string)) : list vitem := map (fun p => vitem_of (snd p)) lines.
+  Fixpoint last_filter (l : list vitem) : option string :=
+    match l with
+    | [] => None
+    | i :: r => match last_filter r with Some e => Some e | None => match i with IFilter e => Some e | _ => None end end
+    end.
+  Fixpoint last_desc (l : list vitem) : option string :=
+    match l with
+    | [] => None
+    | i :: r => match last_desc r with Some e => Some e | None => match i with IDesc e => Some e | _ => None end end
+    end.
+  Definition vars_of (l : list vitem) : list (string * string) :=
+    flat_map (fun i => match i with IVar x e => [(x, e)] | _ => [] end) l.
+
+  Lemma fold_vlines_spec lines : forall st st',
+    foldM (apply_vline pyparse) lines st = Ok st' ->
+    q_filter st' = orelse (last_filter (vitems lines)) (q_filter st) /\
+    q_desc st' = orelse (last_desc (vitems lines)) (q_desc st) /\
+    q_vars st' = dict_of (q_vars st) (vars_of (vitems lines)) /\
+    Forall (fun p => vline_check pyparse (snd p) = None) lines.
+  Proof.
+    induction lines as [|[n s] r IH]; intros st st' H.
+    - inversion H; subst. cbn. repeat split; auto.
+    - cbn [foldM] in H. rewrite apply_vline_split in H. cbn [fst snd] in H.
+      destruct (vline_check pyparse s) eqn:C; [discriminate H|]. cbn [bind] in H.
+      destruct (IH _ _ H) as (I1 & I2 & I3 & I4).
+      assert (F : Forall (fun p => vline_check pyparse (snd p) = None) ((n, s) :: r)) by (constructor; assumption).
+      unfold vitems; cbn [map snd]. fold (vitems r). cbn [last_filter last_desc vars_of flat_map].
+      fold (vars_of (vitems r)).
+      rewrite I1, I2, I3. unfold vline_upd, vline_check in *.
+      destruct (vitem_of s); cbn; repeat split; auto;
+        try (destruct (last_filter (vitems r)); reflexivity);
+        try (destruct (last_desc (vitems r)); reflexivity).
+      discriminate C.
+  Qed.
+
+  Lemma build_view_spec n0 name lines v :
+    build_view pyparse (n0, name, lines) = Ok v ->
+    v_name v = name /\ v_line v = n0 /\
+    last_filter (vitems lines) = Some (v_filter v) /\
+    v_desc v = last_desc (vitems lines) /\
+    v_vars v = dict_of [] (vars_of (vitems lines)) /\
+    Forall (fun p => vline_check pyparse (snd p) = None) lines.
+  Proof.
+    unfold build_view. destruct (foldM (apply_vline pyparse) lines pview0) as [pv|] eqn:F; [|discriminate].
+    cbn [bind]. apply fold_vlines_spec in F. destruct F as (F1 & F2 & F3 & F4). cbn in F1, F2, F3.
+    destruct (q_filter pv) as [fe|] eqn:Q; [|discriminate].
+    intros H; inversion H; subst; cbn.
+    assert (O : forall o : option string, orelse o None = o) by (intros [|]; reflexivity).
+    rewrite O in F1, F2. repeat split; auto; congruence.
+  Qed.
+
+  Lemma sections_v_heads ls : map sec_head (sections_v ls) = headers classify_v ls.
+  Proof. unfold sections_v. now rewrite group_headers, headers_toks. Qed.
+
+  Lemma v_one_view_per_section ls f :
+    parse_views pyparse ls = Ok f ->
+    map (fun v => (v_line v, v_name v)) (f_views f) = headers classify_v ls.
+  Proof.
+    intros H. apply parse_v_sections in H. rewrite <- sections_v_heads.
+    induction H as [|[[n nm] ps] r secs rules Hb _ IH]; [reflexivity|].
+    cbn [map sec_head]. rewrite IH. apply build_view_spec in Hb.
+    destruct Hb as (H1 & H2 & _). now rewrite H1, H2.
+  Qed.
+End FileLevel.
